@@ -526,6 +526,18 @@ pub fn run(
                 );
             }
         }
+        if std::env::var_os("VERIF_TRACE").is_some() {
+            // diagnostic aid for replays: one line per operation (never read by any check)
+            let mut line = format!("trace op#{} {} ins={:?} outs={:?} failed={} skipped={}", oi, op_name(op), r.ins, r.outs, r.failed, r.skipped);
+            for o in r.outs.iter().chain(r.ins.iter()) {
+                if let Id::E(i) = o {
+                    if let Some(ev) = w.es.get(i) {
+                        line += &format!(" | E{}: cst={} elem={} memo={:?} poisoned={}", i, ev.cst, ev.elem.is_some(), ev.memo, ev.poisoned);
+                    }
+                }
+            }
+            eprintln!("{}", line);
+        }
         resolved[oi] = r;
         if judge == Judge::C13 && replay_of.is_none() && c.digest_steps.contains(&oi) {
             let n = cs.num_constraints();
